@@ -8,7 +8,7 @@ one normal form per class when the box graph is connected.  Foliation: every yie
 flattened foliation stay inside the class.
 """
 from mc import ref, build
-from mc.core import Part, pmap, digest
+from mc.core import Part, pmap, digest, time_limit
 from mc.c05 import name_key, _from_model, _norm_recipe
 
 CLASS_CAP = 400
@@ -101,7 +101,8 @@ def check_member(params):
         return out
     # (b)/(d) normal_form agrees with the driven trace
     try:
-        nf, exc = d.normal_form(left=left), None
+        with time_limit(10, "normal_form"):
+            nf, exc = d.normal_form(left=left), None
     except Exception as e:  # noqa
         nf, exc = None, e
     if status == "cycle":
@@ -125,7 +126,8 @@ def check_member(params):
         return out
     # (c) idempotence
     try:
-        nf2 = nf.normal_form(left=left)
+        with time_limit(10, "normal_form of a normal form"):
+            nf2 = nf.normal_form(left=left)
         if ref.diagram_key(nf2) != ref.diagram_key(nf):
             bad("not-idempotent", "nf(nf(d)) = %s != nf(d) = %s"
                 % (ref.to_model(nf2, name_key)[1], ref.to_model(nf, name_key)[1]))
@@ -192,6 +194,44 @@ def check_foliation(params):
     return out
 
 
+def check_history(params):
+    """Several requests on the *same* diagram object, with different flags, interleaved with
+    requests on another object: each answer equals the answer a fresh object gives."""
+    cls = params["cls"]
+    m = _model_from_json(params["m"])
+    d = _from_model(cls, m)
+    out = []
+
+    def outcome(thunk):
+        try:
+            with time_limit(10, "normal_form"):
+                v = thunk()
+            return ("value", ref.diagram_key(v)) if not isinstance(v, list) else ("list", [ref.diagram_key(x) for x in v])
+        except Exception as e:  # noqa
+            return ("raises", type(e).__name__)
+    for order in params["orders"]:
+        for t, (what, left) in enumerate(order):
+            if what == "nf":
+                got = outcome(lambda: d.normal_form(left=left))
+                want = outcome(lambda: _from_model(cls, m).normal_form(left=left))
+            else:   # the generator, driven with cycle detection (it never ends on a disconnected diagram)
+                hz = 4 * len(m[1]) ** 2 + 8
+                tr, st = drive_normalize(d, left, hz)
+                got = (str(st), [ref.diagram_key(x) for x in tr])
+                tr, st = drive_normalize(_from_model(cls, m), left, hz)
+                want = (str(st), [ref.diagram_key(x) for x in tr])
+            if got != want:
+                out.append((_sig("history", params), "[%s] %s: request #%d of %s on the same object, %s(left=%s), "
+                            "answers %s but a fresh object answers %s" % (cls, d, t, order, what, left,
+                                                                          str(got)[:160], str(want)[:160])))
+                return out
+    return out
+
+
+ORDERS = [[("nf", False), ("nf", True), ("nf", False)], [("nf", True), ("nf", False)],
+          [("steps", False), ("nf", True), ("steps", True), ("nf", False)]]
+
+
 def _model_from_json(m):
     dom, layers = m
     return (tuple(_t(a) for a in dom),
@@ -236,6 +276,15 @@ def check_class(params):
     if not out:
         for m in members[:8]:
             out.extend(check_foliation(dict(cls=cls, m=m)))
+    if not out:
+        # the same seed as a rigid diagram (rigid.Diagram overrides normal_form), and request
+        # histories on one object in both classes
+        for left in (False, True):
+            p = dict(cls="rigid", m=m0, left=left)
+            out.extend(check_member(p))
+            stats["steps"] += p.get("_steps", 0)
+        for c in (cls, "rigid"):
+            out.extend(check_history(dict(cls=c, m=m0, orders=ORDERS)))
     params["_stats"] = stats
     return out
 
@@ -281,7 +330,7 @@ def check_large(params):
 
 
 CASES = {k: safe("C06", f) for k, f in {"class": check_class, "member": check_member, "foliation": check_foliation,
-                                        "large": check_large}.items()}
+                                        "large": check_large, "history": check_history}.items()}
 
 
 def _stage1(shard):
